@@ -125,11 +125,18 @@ class FilterSeq(SpecSeq):
         F0 = lambda t: self.f(*(ps0 + [t]))
         def pos(t, k_): return z3.Implies(z3.And(0 <= k_, k_ < z3.Length(F0(t))), z3.Exists([j0], z3.And(0 <= j0, j0 < t, self.cond(*(ps0 + [j0])), self.item(*(ps0 + [j0])) == F0(t)[k_])))
         kq = z3.Int('k!pq')
+        rs_ = z3.SeqSort(self.item_sort); A0, A1 = z3.FreshConst(rs_, 'A'), z3.FreshConst(rs_, 'A1'); x0 = z3.FreshConst(self.item_sort, 'x'); i0 = z3.FreshConst(IntS, 'sk_i'); iq = z3.Int('i!pc')
+        Fn_, Fn1_, it_ = F0(n0), F0(n0 + 1), self.item(*(ps0 + [n0]))
+        cuts = [z3.ForAll([iq], z3.Implies(z3.And(0 <= iq, iq < z3.Length(Fn_)), Fn1_[iq] == Fn_[iq])), Fn1_[z3.Length(Fn_)] == it_]      # instances of the cut facts (A0 := F(n), A1 := F(n+1), x := item n)
         if getattr(self, 'want_positions_lemma', False): out0 += [('speclib/%s/positions-are-kept-items/base' % self.name, [F0(z3.IntVal(0)) == self.empty], pos(z3.IntVal(0), k0)),
                  # the step by cases on whether element n is kept (the unfolding F(n+1) == F(n) ++ (if kept [item n] else []) with the condition decided)
                  ('speclib/%s/positions-are-kept-items/step-kept' % self.name,
                   [n0 >= 0, z3.ForAll([kq], pos(n0, kq)), self.cond(*(ps0 + [n0])), F0(n0 + 1) == z3.Concat(F0(n0), z3.Unit(self.item(*(ps0 + [n0])))),
-                   z3.Length(F0(n0 + 1)) == z3.Length(F0(n0)) + 1], pos(n0 + 1, k0)),
+                   z3.Length(F0(n0 + 1)) == z3.Length(F0(n0)) + 1] + cuts, pos(n0 + 1, k0)),
+                 # the three facts about `xs ++ [x]` used above, each discharged on its own (a cut)
+                 ('speclib/%s/positions-are-kept-items/step-kept/cut-old-positions' % self.name, [A1 == z3.Concat(A0, z3.Unit(x0)), 0 <= i0, i0 < z3.Length(A0)], A1[i0] == A0[i0]),
+                 ('speclib/%s/positions-are-kept-items/step-kept/cut-new-position' % self.name, [A1 == z3.Concat(A0, z3.Unit(x0))], A1[z3.Length(A0)] == x0),
+                 ('speclib/%s/positions-are-kept-items/step-kept/cut-length' % self.name, [A1 == z3.Concat(A0, z3.Unit(x0))], z3.Length(A1) == z3.Length(A0) + 1),
                  ('speclib/%s/positions-are-kept-items/step-dropped' % self.name,
                   [n0 >= 0, z3.ForAll([kq], pos(n0, kq)), z3.Not(self.cond(*(ps0 + [n0]))), F0(n0 + 1) == F0(n0)], pos(n0 + 1, k0))]
         ps = [z3.FreshConst(s_, 'p') for s_ in self.param_sorts]
